@@ -243,6 +243,8 @@ def run(ctx):
     ctx.cov["programs"] = len(runs)
     ctx.cov["disagreements_checked"] = len(runs)
     replay_findings(ctx)
+    from vlib import regress
+    regress.wide_injection(ctx)          # the shape-agnostic search step (DESIGN.md 12.8)
     ctx.cov["rule"] = ("injection: 7 fixed + random in-guard schemas, every property / item / definition / allOf-anyOf-branch-property position (guard G18: typed ancestors), "
                        "each given one of 10 ungeneratable elements (unknown type, missing definition in both spellings, missing file, empty enum typed/untyped, non-primitive enum, "
                        "non-number in an integer enum), with -o FILE (pre-existing output) and with stdout; garbage: 18 byte strings as .json, 8 as .yaml; flags: 11 malformed "
